@@ -14,6 +14,11 @@
    value when the buffer is full must violate them; stress runs of the real channel (2 writers, 1 receiver,
    per-goroutine event queues) are validated by ChanTrace.tla, which looks for an interleaving that is a
    behaviour of the contract and ends with the receiver holding the last value.
+5. SeqWaiters.tla (db_sequences_wait_tracker.go + GetSequenceUpdates): Subscribe / Put / Close / Drain with the
+   tracker's id -> waiter map; LatestKept (a live subscriber has read the latest key of its prefix or it is
+   waiting in its channel), LiveRegistered, ClosedSilent, CloseIndependent; the mutant "id = len(map)+1" must be
+   caught; every transition and long runs are replayed on a real kv.DB (GetSequenceUpdates, sequence puts through
+   ProcessWrite, SequenceWaiter.Close, non-blocking channel reads); random lifecycles are judged by SeqWaitTrace.
 """
 import os
 import _db
@@ -75,7 +80,69 @@ def run(ctx):
     else:
         ctx.traces_validated += runs
         ctx.log("override channel: %d stress runs x %d writes of the real channel accepted by ChanTrace (%d states)" % (runs, writes, r.distinct))
+    _seq_waiters(ctx, quick)
     ctx.notes["exhaustive"] = True
+
+
+def _seq_waiters(ctx, quick):
+    """SeqWaiters.tla: the subscribers of sequence updates (wait tracker + GetSequenceUpdates) on a real kv.DB."""
+    import json
+    r = ctx.tlc("SeqWaiters", "seqw-quick.cfg" if quick else "seqw-thorough.cfg", label="seqw", heap="4g")
+    ctx.log("SeqWaiters (subscribe / put / close / drain): %d distinct states, %d transitions" % (r.distinct, r.generated))
+    r = ctx.tlc("SeqWaiters", "seqw-mutant-id.cfg", label="seqw-mutant", allow_violation=True, heap="2g")
+    if not r.violated:
+        raise vf.Inconclusive("the id-from-map-size mutant of SeqWaiters.tla is not caught: the properties are vacuous")
+    wbin = ctx.go_build("seqwait")
+
+    def replay_on_db(cfg, tag, label, **kw):
+        r = ctx.tlc("SeqWaiters", cfg, label=label, heap="4g", **kw)
+        path = os.path.join(ctx.scratch, label + ".ndjson")
+        if _db.export(r, tag, path) == 0:
+            raise vf.Inconclusive("TLC exported no behaviours for %s" % cfg)
+        out = os.path.join(ctx.scratch, label + ".json")
+        ctx.run([wbin, "replay", "-in", path, "-out", out])
+        res = json.load(open(out))
+        ctx.replayed += res["behaviours"]
+        ctx.log("replayed %d subscriber behaviours (%d calls) on the real kv.DB [%s]: %d mismatch class(es)" %
+                (res["behaviours"], res["steps"], label, len(res["mismatches"])))
+        for i, mm in enumerate(res["mismatches"]):
+            p = ctx.save_replay("seqw-%s-%d.json" % (label, i), mm)
+            calls = " ".join("%s(%s)" % (s["a"], s["p"] or (s["w"] or "")) for s in mm["behaviour"])
+            ctx.violation("sequence-update subscribers of the real kv.DB deviate from SeqWaiters.tla at step %d of [%s]: %s"
+                          % (mm["step"], calls, mm["what"]), p)
+        return path
+
+    path = replay_on_db("seqw-steps.cfg", "STEP", "seqw-steps")
+    with open(path) as f:
+        lines = f.readlines()
+        ctx.samples.append({"kind": "subscriber behaviour replayed on the real kv.DB", "behaviour": json.loads(lines[len(lines) // 2])})
+    replay_on_db("seqw-runs.cfg", "RUN", "seqw-runs", simulate="num=%d" % (20 if quick else 200), depth=26, workers=1)
+
+    tp = os.path.join(ctx.scratch, "seqw-trace.ndjson")
+    nt = 60 if quick else 600
+    ctx.run([wbin, "drive", "-seed", str(ctx.seed), "-n", str(nt), "-ops", "40", "-out", tp])
+    r = ctx.tlc("SeqWaitTrace", "seqw-trace.cfg", files=[(tp, "trace.ndjson")], workers=1, deque=True, label="seqw-trace",
+                seed=False, allow_violation=True, heap="2g")
+    if r.ok:
+        ctx.traces_validated += nt
+        ctx.log("subscribers: %d random lifecycles on the real kv.DB accepted by SeqWaitTrace" % nt)
+    else:
+        hw = 0
+        for l in r.out.splitlines():
+            if l.startswith('<<"REJECTED"'):
+                hw = int(l.split(",")[1])
+        if hw == 0:
+            raise vf.Inconclusive("SeqWaitTrace failed without a rejection mark:\n%s" % "\n".join(r.out.splitlines()[-20:]))
+        lines = open(tp).read().splitlines()
+        bad = min(hw, len(lines)) - 1
+        start = bad
+        while start > 0 and json.loads(lines[start])["a"] != "Reset":
+            start -= 1
+        calls = [json.loads(x) for x in lines[start + 1: bad + 1]]
+        p = ctx.save_replay("seqw-trace-line%d.json" % bad, {"behaviour": calls, "step": len(calls) - 1,
+                            "what": "recorded call is not a step of SeqWaiters.tla (observed fields are those of the real kv.DB)"})
+        ctx.violation("real subscriber lifecycle rejected by SeqWaitTrace at call #%d %s: observed %s" %
+                      (len(calls) - 1, calls[-1]["a"], json.dumps(calls[-1])), p)
 
 
 def replay(ctx, path):
@@ -85,5 +152,16 @@ def replay(ctx, path):
                     seed=False, allow_violation=True, heap="2g")
         if not r.ok:
             ctx.violation("recorded run of the override channel is rejected by ChanTrace", path)
+        return
+    if os.path.basename(path).startswith("seqw-"):
+        import json
+        wbin = ctx.go_build("seqwait")
+        beh = json.load(open(path))["behaviour"]
+        lp = os.path.join(ctx.scratch, "one.ndjson")
+        open(lp, "w").write(json.dumps(beh) + "\n")
+        out = os.path.join(ctx.scratch, "one.json")
+        ctx.run([wbin, "replay", "-in", lp, "-out", out])
+        for mm in json.load(open(out))["mismatches"]:
+            ctx.violation("replayed subscriber behaviour deviates from SeqWaiters.tla at step %d: %s" % (mm["step"], mm["what"]), path)
         return
     _db.replay_file(ctx, path, "db-trace-c16.cfg")
